@@ -528,27 +528,27 @@ func firstLine(s string) string {
 // ---------------------------------------------------------------- part (b)
 
 type lifeCase struct {
-	Name      string `json:"name"`
-	Inbound   bool   `json:"inbound"`
-	Queuers   int    `json:"queuers"`    // 1..2 threads calling QueueMessage
-	PerQ      int    `json:"per_queuer"` // messages per queuer
-	Inv       bool   `json:"inv"`        // one thread calls QueueInventory + a trickle tick
-	Disc      string `json:"disc"`       // "api" (p.Disconnect), "remote-close", "write-error", "none"
-	RemotePing bool  `json:"remote_ping"`
-	Bound     int    `json:"bound"`
-	Choices   []int  `json:"choices,omitempty"`
+	Name       string `json:"name"`
+	Inbound    bool   `json:"inbound"`
+	Queuers    int    `json:"queuers"`    // 1..2 threads calling QueueMessage
+	PerQ       int    `json:"per_queuer"` // messages per queuer
+	Inv        bool   `json:"inv"`        // one thread calls QueueInventory + a trickle tick
+	Disc       string `json:"disc"`       // "api" (p.Disconnect), "remote-close", "write-error", "none"
+	RemotePing bool   `json:"remote_ping"`
+	Bound      int    `json:"bound"`
+	Choices    []int  `json:"choices,omitempty"`
 }
 
 type lifeObs struct {
-	wireNonces   []uint64 // ping nonces on the wire, in order
-	doneCount    map[uint64]int
-	retTime      map[uint64]int
-	callTime     map[uint64]int
-	discCall     int
-	invOnWire    int
-	leakBlocked  []string
-	pongOnWire   int
-	ticked       bool
+	wireNonces  []uint64 // ping nonces on the wire, in order
+	doneCount   map[uint64]int
+	retTime     map[uint64]int
+	callTime    map[uint64]int
+	discCall    int
+	invOnWire   int
+	leakBlocked []string
+	pongOnWire  int
+	ticked      bool
 }
 
 func runLife(lc lifeCase, prefix []int) (*vsched.Exec, *lifeObs) {
@@ -754,12 +754,12 @@ func protoCases(maxLen int) []protoCase {
 }
 
 type shardResult struct {
-	Evals      int               `json:"evals"`
-	Points     int               `json:"points"`
-	Outcomes   map[string]int    `json:"outcomes"`
-	Violations []shardViolation  `json:"violations"`
-	Complete   bool              `json:"complete"`
-	Samples    []string          `json:"samples"`
+	Evals      int              `json:"evals"`
+	Points     int              `json:"points"`
+	Outcomes   map[string]int   `json:"outcomes"`
+	Violations []shardViolation `json:"violations"`
+	Complete   bool             `json:"complete"`
+	Samples    []string         `json:"samples"`
 }
 type shardViolation struct {
 	Key    string      `json:"key"`
@@ -776,6 +776,11 @@ func lifeCases(thorough bool) []lifeCase {
 	for _, inbound := range []bool{false, true} {
 		for _, disc := range []string{"api", "remote-close", "write-error", "none"} {
 			out = append(out, lifeCase{Name: "1q2", Inbound: inbound, Queuers: 1, PerQ: 2, Disc: disc, Bound: b})
+			if !inbound && (disc == "api" || disc == "remote-close") {
+				// three sends in flight: two of them can be parked in the queue
+				// handler's pending list when the disconnect arrives
+				out = append(out, lifeCase{Name: "1q3", Inbound: inbound, Queuers: 1, PerQ: 3, Disc: disc, Bound: b})
+			}
 			if !inbound {
 				out = append(out, lifeCase{Name: "2q1", Inbound: inbound, Queuers: 2, PerQ: 1, Disc: disc, Bound: b})
 			}
